@@ -150,6 +150,12 @@ impl<S: Read + Write> RdpClient<S> {
         self.global.verif_state()
     }
 
+    /// Bytes already received (and decrypted) that the next read will return
+    /// without waiting for the server : waiting on the socket would not see them
+    pub fn pending(&self) -> usize {
+        self.mcs.pending()
+    }
+
     /// Close client is indeed close the switch layer
     pub fn shutdown(&mut self) -> RdpResult<()> {
         self.mcs.shutdown()
